@@ -202,12 +202,20 @@ def judge_factory(rec, cfg):
             for a in acts:
                 for x in a["calls"]:
                     if x.startswith("spawn ") and a["proc"] == 0: spawned.append((int(x.split()[1][1:]), a["t"]))
-            seen = {}
+            seen = {}; first_offer = {}
             for a in acts:
                 p = a["proc"]
                 if p != 0 and a["kind"] == "worker":
                     seen[p] = seen.get(p, 0) + 1
                     if seen[p] == 2: offer[p] = a["t"]
+                    if p not in first_offer and any(x.startswith(("rp ", "can ")) for x in a["calls"]): first_offer[p] = (seen[p], a["t"])
+            # … and no later: the activation in which the processing timer ends is the one that asks the out-edge (requests room or probes it);
+            # a worker that first waits for anything else holds a finished item back although its out-edge may have room
+            for p, (k_, t_) in first_offer.items():
+                if k_ > 2 and p in offer and rec.crash is None:
+                    v("C08", "late-offer", f"machine {nid}: worker {p} finished its processing delay at t={offer[p]} but asked its out-edge only at t={t_} "
+                                           f"(activation {k_} of the worker): the item is offered downstream exactly one processing delay after it was pulled")
+                    break
             # the item is offered downstream only when its processing delay has elapsed: a worker's first activation starts the timer and
             # does nothing else (a space request placed earlier holds a place that a finished item of another worker could use)
             first_act = {}
